@@ -93,6 +93,7 @@ type State struct {
 	stalled int
 	timers  []timerRec
 	vtime   *Term // virtual nanoseconds elapsed
+	hashRecs []*hashRec
 }
 
 func (s *State) setUB(t *Term, v uint64) {
@@ -160,6 +161,7 @@ func (s *State) fork() *State {
 	c.panicking = s.panicking
 	s.cloneThreads(c)
 	c.clock = s.clock
+	c.hashRecs = s.hashRecs
 	c.facts = s.facts
 	c.factsShared = true
 	s.factsShared = true
